@@ -113,6 +113,7 @@ def add_fs_obligations(ck, tu, X, pid):
         write_hdf5_unit(ck, tu, X, struct)
     if pid in ("C02", "C09"):
         reader_side(ck, pid)
+        ck.replayers.setdefault("fs.failed_create_never_published", replay_stale_tmp)
     ck.trust({k: v for k, v in cext.TRUSTED.items()})
     ck.assumptions += [
         "rename, mkdir and unlink are atomic; a file that was closed successfully before the process died keeps its bytes (crash = process death)",
@@ -284,3 +285,12 @@ def reader_side(ck, pid):
               "_get_bounds must skip listed files that cannot be opened", {})
     for nm in ("_top_level_dir_properties._read", "_top_level_dir_properties._get_bounds"):
         ck.add_function(pyload.source_info(mod, nm))
+
+
+def replay_stale_tmp(o, model):
+    from checks import replay_py
+    r = replay_py.run_driver("stale_tmp.py", {"max_failures": 1}, timeout=600)
+    if r["failures"]:
+        f = r["failures"][0]
+        return True, "restart on a tree with a stale tmp file: %s\n  case: %s" % (f["what"], str(f.get("case"))[:300]), f
+    return False, "no stale tmp file published in %d restart scenarios" % r["cases"], None
